@@ -146,6 +146,14 @@ MUTANTS: dict = {
         "    if _ns >= 2:\n"
         "        _outs[0].type, _outs[1].type = _outs[1].type, _outs[0].type\n"
         "    return _outs\n")),
+    # ---- outside round 7 (classes A, B)
+    "sampling_guard_relaxed_when_seeded": (STD, lambda s: s.replace(
+        "            self.op_type.identifier in _NON_DETERMINISTIC_OPS\n        )\n",
+        "            self.op_type.identifier in _NON_DETERMINISTIC_OPS\n"
+        "        ) and getattr(self.attrs, \"seed\", None) is None\n", 1)),
+    "shape_le_rank0_like_unknown": ("src/spox/_shape.py", lambda s: s.replace(
+        "        elif self.dims is None or other.dims is None:\n            return True\n        elif self.rank != other.rank:",
+        "        elif not self.dims or not other.dims:\n            return True\n        elif self.rank != other.rank:", 1)),
     "compress_fix_reverted": (V17, lambda s: s.replace(
         "        if inp.shape is None and self.attrs.axis is not None:", "        if not inp.shape:", 1)),
 }
